@@ -11,6 +11,7 @@ package c06
 
 import (
 	"fmt"
+	"math"
 	"testing"
 	"unsafe"
 
@@ -29,12 +30,36 @@ type AliasSpec struct {
 	Of      int         `json:"of,omitempty"`      // > 0: geometry number Of of the case (1-based, earlier), its top-level slice re-sliced [Lo:Hi]
 	Lo      int         `json:"lo,omitempty"`
 	Hi      int         `json:"hi,omitempty"`
+	MBuf    int         `json:"mbuf,omitempty"` // > 0: the member slice of this container is the window MWin of member buffer number MBuf (1-based)
+	MWin    []int       `json:"mwin,omitempty"`
 }
 
-// AliasCase: up to three geometries over one buffer (replay format).
+// MemberBuf is one backing array of members shared by several containers of
+// the case (aliasing INSIDE one value): Kind Collection = []orb.Geometry,
+// Polygon = []orb.Ring, MultiLineString = []orb.LineString, MultiPolygon =
+// []orb.Polygon. An element of a Collection buffer may itself be a window of
+// the part of the same buffer that precedes it (a member that is a prefix of
+// its own parent's backing array).
+type MemberBuf struct {
+	Kind  string      `json:"kind"`
+	Elems []AliasSpec `json:"elems"`
+}
+
+// AliasCase: up to three geometries over one vertex buffer and optional member buffers (replay format).
 type AliasCase struct {
 	Buf   []gen.P     `json:"buf"`
+	MBufs []MemberBuf `json:"mbufs,omitempty"`
 	Geoms []AliasSpec `json:"geoms"`
+}
+
+// aliasCtx holds the backing arrays while a case is built.
+type aliasCtx struct {
+	buf    []orb.Point
+	geoms  map[int][]orb.Geometry
+	rings  map[int][]orb.Ring
+	lines  map[int][]orb.LineString
+	polys  map[int][]orb.Polygon
+	filled map[int]int // elements of a buffer already built (windows of a buffer under construction stop there)
 }
 
 func clampWin(lo, hi, n int) (int, int) {
@@ -113,7 +138,8 @@ func orDefault(kind, def string) string {
 	return def
 }
 
-func (s AliasSpec) build(buf []orb.Point, built []orb.Geometry) orb.Geometry {
+func (s AliasSpec) build(ctx *aliasCtx, built []orb.Geometry) orb.Geometry {
+	buf := ctx.buf
 	if s.Of > 0 && s.Of <= len(built) {
 		return reslice(built[s.Of-1], s.Kind, s.Lo, s.Hi)
 	}
@@ -124,7 +150,49 @@ func (s AliasSpec) build(buf []orb.Point, built []orb.Geometry) orb.Geometry {
 		}
 		return buf[lo:hi]
 	}
+	if s.MBuf > 0 {
+		mw := func(n int) (int, int) {
+			if f, ok := ctx.filled[s.MBuf]; ok && f < n {
+				n = f
+			}
+			if len(s.MWin) == 2 {
+				return clampWin(s.MWin[0], s.MWin[1], n)
+			}
+			return 0, n
+		}
+		switch s.Kind {
+		case "Collection":
+			if a, ok := ctx.geoms[s.MBuf]; ok {
+				lo, hi := mw(len(a))
+				return orb.Collection(a[lo:hi])
+			}
+			return orb.Collection{}
+		case "Polygon":
+			if a, ok := ctx.rings[s.MBuf]; ok {
+				lo, hi := mw(len(a))
+				return orb.Polygon(a[lo:hi])
+			}
+			return orb.Polygon{}
+		case "MultiLineString":
+			if a, ok := ctx.lines[s.MBuf]; ok {
+				lo, hi := mw(len(a))
+				return orb.MultiLineString(a[lo:hi])
+			}
+			return orb.MultiLineString{}
+		case "MultiPolygon":
+			if a, ok := ctx.polys[s.MBuf]; ok {
+				lo, hi := mw(len(a))
+				return orb.MultiPolygon(a[lo:hi])
+			}
+			return orb.MultiPolygon{}
+		}
+	}
 	switch s.Kind {
+	case "Point":
+		if w := win(s); len(w) > 0 {
+			return w[0]
+		}
+		return orb.Point{}
 	case "MultiLineString":
 		v := make(orb.MultiLineString, len(s.Members))
 		for i, m := range s.Members {
@@ -141,49 +209,125 @@ func (s AliasSpec) build(buf []orb.Point, built []orb.Geometry) orb.Geometry {
 		v := make(orb.MultiPolygon, len(s.Members))
 		for i, m := range s.Members {
 			m.Kind = "Polygon"
-			v[i] = m.build(buf, nil).(orb.Polygon)
+			v[i] = m.build(ctx, nil).(orb.Polygon)
 		}
 		return v
 	case "Collection":
 		v := make(orb.Collection, len(s.Members))
 		for i, m := range s.Members {
-			v[i] = m.build(buf, nil)
+			v[i] = m.build(ctx, nil)
 		}
 		return v
 	}
 	return asList(s.Kind, win(s))
 }
 
-// build makes fresh geometries over a fresh copy of the buffer.
-func (c AliasCase) build() []orb.Geometry {
-	buf := gen.OrbPts(c.Buf)
-	if buf == nil {
-		buf = []orb.Point{}
+// buildAll makes fresh backing arrays and fresh geometries over them.
+func (c AliasCase) buildAll() ([]orb.Geometry, *aliasCtx) {
+	ctx := &aliasCtx{buf: gen.OrbPts(c.Buf), geoms: map[int][]orb.Geometry{}, rings: map[int][]orb.Ring{},
+		lines: map[int][]orb.LineString{}, polys: map[int][]orb.Polygon{}, filled: map[int]int{}}
+	if ctx.buf == nil {
+		ctx.buf = []orb.Point{}
+	}
+	for bi, mb := range c.MBufs {
+		id, n := bi+1, len(mb.Elems)
+		ctx.filled[id] = 0
+		switch mb.Kind {
+		case "Polygon":
+			a := make([]orb.Ring, n)
+			ctx.rings[id] = a
+			for i, e := range mb.Elems {
+				e.Kind, e.MBuf = "Ring", 0
+				a[i] = e.build(ctx, nil).(orb.Ring)
+				ctx.filled[id] = i + 1
+			}
+		case "MultiLineString":
+			a := make([]orb.LineString, n)
+			ctx.lines[id] = a
+			for i, e := range mb.Elems {
+				e.Kind, e.MBuf = "LineString", 0
+				a[i] = e.build(ctx, nil).(orb.LineString)
+				ctx.filled[id] = i + 1
+			}
+		case "MultiPolygon":
+			a := make([]orb.Polygon, n)
+			ctx.polys[id] = a
+			for i, e := range mb.Elems {
+				e.Kind = "Polygon"
+				a[i] = e.build(ctx, nil).(orb.Polygon)
+				ctx.filled[id] = i + 1
+			}
+		default:
+			a := make([]orb.Geometry, n)
+			ctx.geoms[id] = a
+			for i, e := range mb.Elems {
+				a[i] = e.build(ctx, nil)
+				ctx.filled[id] = i + 1
+			}
+		}
+		delete(ctx.filled, id)
 	}
 	var built []orb.Geometry
 	for _, s := range c.Geoms {
-		built = append(built, s.build(buf, built))
+		built = append(built, s.build(ctx, built))
 	}
-	return built
+	return built, ctx
+}
+
+func (c AliasCase) build() []orb.Geometry {
+	gs, _ := c.buildAll()
+	return gs
 }
 
 func checkAlias(c AliasCase) error {
-	gs := c.build()
+	gs, ctx := c.buildAll()
 	if len(gs) == 0 {
 		return nil
 	}
+	buf0 := append([]orb.Point{}, ctx.buf...) // the caller's whole backing array, bit for bit
 	names := []string{"a", "b", "c", "d", "e"}[:len(gs)]
 	all := append([]orb.Geometry{}, gs...)
 	if cl := orb.Clone(gs[0]); cl != nil { // clone-then-compare: transitivity through a value that shares nothing
 		all = append(all, cl)
 		names = append(names, "Clone(a)")
+		if overlapping(slotRanges(cl)) {
+			// not promised by the statement (a clone shares nothing with the ORIGINAL): counted, never a failure
+			stats.Class("layout-note: two parts of one clone share memory")
+		}
 	}
 	if err := checkRelation(all, names); err != nil {
 		return err
 	}
 	for i, g := range gs {
-		if err := checkGeomBound(g); err != nil {
+		if err := checkGeomBoundRaw(g); err != nil {
 			return fmt.Errorf("%s: %v", names[i], err)
+		}
+		_ = g.Dimensions()
+	}
+	// operands are read-only for Equal, Bound, Clone, Dimensions: no vertex the caller can reach through an
+	// operand may have changed; a write to a buffer cell outside every operand is only a layout note
+	if !bitsEq(ctx.buf, buf0) {
+		covered := make([]bool, len(buf0))
+		for _, g := range gs {
+			var ls [][]orb.Point
+			pointLists(g, &ls)
+			for _, l := range ls {
+				for k := range l {
+					for idx := range ctx.buf {
+						if &ctx.buf[idx] == &l[k] {
+							covered[idx] = true
+						}
+					}
+				}
+			}
+		}
+		for idx := range buf0 {
+			if math.Float64bits(buf0[idx][0]) != math.Float64bits(ctx.buf[idx][0]) || math.Float64bits(buf0[idx][1]) != math.Float64bits(ctx.buf[idx][1]) {
+				if covered[idx] {
+					return fmt.Errorf("a read-only call (Equal, Bound, Clone, Dimensions) changed vertex %d of the caller's buffer from %v to %v", idx, buf0[idx], ctx.buf[idx])
+				}
+				stats.Class("layout-note: a read-only call wrote a buffer cell outside every operand")
+			}
 		}
 	}
 	// Clone of a value whose members share memory with each other (fresh build each time: the check overwrites it)
@@ -196,6 +340,95 @@ func checkAlias(c AliasCase) error {
 		}
 	}
 	return nil
+}
+
+// slotRange is one slice reachable from a geometry: its first element's address, element size and length.
+type slotRange struct {
+	p    uintptr
+	size uintptr
+	n    int
+}
+
+func slotRanges(g orb.Geometry) []slotRange {
+	var out []slotRange
+	var rec func(g orb.Geometry)
+	pts := func(l []orb.Point) {
+		if len(l) > 0 {
+			out = append(out, slotRange{uintptr(unsafe.Pointer(&l[0])), unsafe.Sizeof(l[0]), len(l)})
+		}
+	}
+	rec = func(g orb.Geometry) {
+		switch v := g.(type) {
+		case orb.MultiPoint:
+			pts(v)
+		case orb.LineString:
+			pts(v)
+		case orb.Ring:
+			pts(v)
+		case orb.MultiLineString:
+			if len(v) > 0 {
+				out = append(out, slotRange{uintptr(unsafe.Pointer(&v[0])), unsafe.Sizeof(v[0]), len(v)})
+			}
+			for _, l := range v {
+				pts(l)
+			}
+		case orb.Polygon:
+			if len(v) > 0 {
+				out = append(out, slotRange{uintptr(unsafe.Pointer(&v[0])), unsafe.Sizeof(v[0]), len(v)})
+			}
+			for _, r := range v {
+				pts(r)
+			}
+		case orb.MultiPolygon:
+			if len(v) > 0 {
+				out = append(out, slotRange{uintptr(unsafe.Pointer(&v[0])), unsafe.Sizeof(v[0]), len(v)})
+			}
+			for _, p := range v {
+				rec(p)
+			}
+		case orb.Collection:
+			if len(v) > 0 {
+				out = append(out, slotRange{uintptr(unsafe.Pointer(&v[0])), unsafe.Sizeof(v[0]), len(v)})
+			}
+			for _, m := range v {
+				rec(m)
+			}
+		}
+	}
+	rec(g)
+	return out
+}
+
+// overlapping: two of the ranges share at least one byte.
+func overlapping(rs []slotRange) bool {
+	for i := range rs {
+		for j := i + 1; j < len(rs); j++ {
+			ei, ej := rs[i].p+rs[i].size*uintptr(rs[i].n), rs[j].p+rs[j].size*uintptr(rs[j].n)
+			if rs[i].p < ej && rs[j].p < ei {
+				return true
+			}
+		}
+	}
+	return false
+}
+
+// innerSharing classifies how the slices of ONE value share memory with each other.
+func innerSharing(g orb.Geometry) (identical, sameStartOtherLen, overlapOtherStart bool) {
+	rs := slotRanges(g)
+	for i := range rs {
+		for j := i + 1; j < len(rs); j++ {
+			ei, ej := rs[i].p+rs[i].size*uintptr(rs[i].n), rs[j].p+rs[j].size*uintptr(rs[j].n)
+			switch {
+			case rs[i].p == rs[j].p && rs[i].n == rs[j].n:
+				identical = true
+			case rs[i].p == rs[j].p:
+				sameStartOtherLen = true
+			case rs[i].p < ej && rs[j].p < ei:
+				overlapOtherStart = true
+			}
+		}
+	}
+	return
 }
 
 // ---------------------------------------------------------------- classification by addresses
@@ -345,6 +578,7 @@ func drawSpec(t *rapid.T, n, depth int) AliasSpec {
 func (s AliasSpec) copy() AliasSpec {
 	c := s
 	c.Win = append([]int(nil), s.Win...)
+	c.MWin = append([]int(nil), s.MWin...)
 	c.Members = nil
 	for _, m := range s.Members {
 		c.Members = append(c.Members, m.copy())
@@ -378,6 +612,18 @@ func derive(t *rapid.T, s AliasSpec, n int, top bool) AliasSpec {
 			c.Kind = rapid.SampledFrom(aliasListKinds).Draw(t, "dkind")
 		}
 	}
+	if c.MBuf > 0 && len(c.MWin) == 2 {
+		lo, hi := c.MWin[0], c.MWin[1]
+		switch rapid.IntRange(0, 4).Draw(t, "dmmode") {
+		case 1:
+			hi = rapid.IntRange(lo, hi).Draw(t, "dmhi")
+		case 2:
+			lo = rapid.IntRange(lo, hi).Draw(t, "dmlo")
+		case 3:
+			hi++
+		}
+		c.MWin = []int{lo, hi}
+	}
 	for i := range c.Members {
 		c.Members[i] = derive(t, c.Members[i], n, c.Kind == "Collection")
 	}
@@ -403,8 +649,13 @@ func drawAliasCase(t *rapid.T) AliasCase {
 		}
 	}
 	c := AliasCase{Buf: gen.Pts(buf)}
-	a := drawSpec(t, n, 0)
-	c.Geoms = []AliasSpec{a}
+	c.Geoms = []AliasSpec{drawSpec(t, n, 0)}
+	addOperands(t, &c, n)
+	return c
+}
+
+// addOperands appends b and c: re-slices of, perturbations of, or the same windows as an earlier operand.
+func addOperands(t *rapid.T, c *AliasCase, n int) {
 	next := func(label string) AliasSpec {
 		built := c.build()
 		from := rapid.IntRange(0, len(c.Geoms)-1).Draw(t, label+"from")
@@ -429,6 +680,135 @@ func drawAliasCase(t *rapid.T) AliasCase {
 	}
 	c.Geoms = append(c.Geoms, next("b"))
 	c.Geoms = append(c.Geoms, next("c"))
+}
+
+func drawBuf(t *rapid.T) []orb.Point {
+	n := rapid.SampledFrom([]int{4, 5, 3, 6, 8}).Draw(t, "bufn")
+	var coord *rapid.Generator[float64]
+	if rapid.IntRange(0, 3).Draw(t, "bufcls") > 0 {
+		coord = rapid.Custom(func(t *rapid.T) float64 { return float64(rapid.IntRange(0, 1).Draw(t, "i")) })
+	} else {
+		coord = gen.FiniteCoord()
+	}
+	buf := make([]orb.Point, n)
+	for i := range buf {
+		buf[i] = orb.Point{coord.Draw(t, "x"), coord.Draw(t, "y")}
+		if i >= 2 && rapid.IntRange(0, 2).Draw(t, "period") == 0 {
+			buf[i] = buf[i-2]
+		}
+	}
+	return buf
+}
+
+// drawInnerCase draws a value a whose OWN parts share memory with each other:
+// containers whose member slices are windows of one member buffer (equal start
+// and different lengths, identical, overlapping), a member that is a window of
+// the part of its parent's backing array before it, the same point window as
+// several members; then b and c as in drawAliasCase.
+func drawInnerCase(t *rapid.T) AliasCase {
+	buf := drawBuf(t)
+	n := len(buf)
+	c := AliasCase{Buf: gen.Pts(buf)}
+	mwin := func(m int) []int { // windows of a member buffer of m elements: prefixes most of the time
+		switch rapid.IntRange(0, 5).Draw(t, "mwmode") {
+		case 0:
+			return []int{0, m}
+		case 1, 2, 3:
+			return []int{0, rapid.IntRange(0, m).Draw(t, "mwhi")}
+		}
+		lo := rapid.IntRange(0, m).Draw(t, "mwlo")
+		return []int{lo, rapid.IntRange(lo, m).Draw(t, "mwhi")}
+	}
+	leaf := func() AliasSpec { // a member without member buffer
+		switch rapid.IntRange(0, 5).Draw(t, "leaf") {
+		case 0:
+			return AliasSpec{Kind: "Point", Win: drawWin(t, n)}
+		case 1:
+			return AliasSpec{Kind: "Polygon", Members: []AliasSpec{{Win: drawWin(t, n)}, {Win: drawWin(t, n)}}}
+		}
+		return AliasSpec{Kind: rapid.SampledFrom(aliasListKinds).Draw(t, "leafkind"), Win: drawWin(t, n)}
+	}
+	scenario := rapid.SampledFrom([]string{"Collection", "Collection", "Collection", "MultiPolygon", "MultiLineString", "Polygon", "lists"}).Draw(t, "scenario")
+	m := rapid.IntRange(2, 5).Draw(t, "mbufn")
+	var a AliasSpec
+	switch scenario {
+	case "Collection": // nested collections that are windows of one []Geometry
+		mb := MemberBuf{Kind: "Collection"}
+		for i := 0; i < m; i++ {
+			if i >= 1 && rapid.IntRange(0, 3).Draw(t, "selfwin") == 0 { // a window of the elements before it
+				mb.Elems = append(mb.Elems, AliasSpec{Kind: "Collection", MBuf: 1, MWin: []int{0, rapid.IntRange(0, i).Draw(t, "selfhi")}})
+			} else {
+				mb.Elems = append(mb.Elems, leaf())
+			}
+		}
+		c.MBufs = []MemberBuf{mb}
+		a = AliasSpec{Kind: "Collection"}
+		for i, k := 0, rapid.IntRange(2, 4).Draw(t, "nmem"); i < k; i++ {
+			switch {
+			case i > 0 && rapid.IntRange(0, 4).Draw(t, "again") == 0:
+				a.Members = append(a.Members, a.Members[i-1].copy()) // the same slice twice
+			case rapid.IntRange(0, 4).Draw(t, "plain") == 0:
+				a.Members = append(a.Members, leaf())
+			default:
+				a.Members = append(a.Members, AliasSpec{Kind: "Collection", MBuf: 1, MWin: mwin(m)})
+			}
+		}
+		if rapid.IntRange(0, 4).Draw(t, "whole") == 0 { // the buffer itself as the value
+			a = AliasSpec{Kind: "Collection", MBuf: 1, MWin: []int{0, m}}
+		}
+	case "MultiPolygon", "Polygon": // polygons that are windows of one []Ring
+		mb := MemberBuf{Kind: "Polygon"}
+		for i := 0; i < m; i++ {
+			mb.Elems = append(mb.Elems, AliasSpec{Win: drawWin(t, n)})
+		}
+		c.MBufs = []MemberBuf{mb}
+		kind := "MultiPolygon"
+		if scenario == "Polygon" {
+			kind = "Collection"
+		}
+		a = AliasSpec{Kind: kind}
+		for i, k := 0, rapid.IntRange(2, 4).Draw(t, "nmem"); i < k; i++ {
+			a.Members = append(a.Members, AliasSpec{Kind: "Polygon", MBuf: 1, MWin: mwin(m)})
+		}
+		if kind == "Collection" && rapid.Bool().Draw(t, "polybuf") { // multi-polygons that are windows of one []Polygon
+			pb := MemberBuf{Kind: "MultiPolygon"}
+			for i := 0; i < m; i++ {
+				pb.Elems = append(pb.Elems, AliasSpec{Kind: "Polygon", MBuf: 1, MWin: mwin(m)})
+			}
+			c.MBufs = append(c.MBufs, pb)
+			a = AliasSpec{Kind: "Collection"}
+			for i, k := 0, rapid.IntRange(2, 3).Draw(t, "nmem2"); i < k; i++ {
+				a.Members = append(a.Members, AliasSpec{Kind: "MultiPolygon", MBuf: 2, MWin: mwin(m)})
+			}
+		}
+	case "MultiLineString": // multi-line-strings that are windows of one []LineString
+		mb := MemberBuf{Kind: "MultiLineString"}
+		for i := 0; i < m; i++ {
+			mb.Elems = append(mb.Elems, AliasSpec{Win: drawWin(t, n)})
+		}
+		c.MBufs = []MemberBuf{mb}
+		a = AliasSpec{Kind: "Collection"}
+		for i, k := 0, rapid.IntRange(2, 4).Draw(t, "nmem"); i < k; i++ {
+			a.Members = append(a.Members, AliasSpec{Kind: "MultiLineString", MBuf: 1, MWin: mwin(m)})
+		}
+	default: // the same point window several times, and prefixes of it, as members
+		w := drawWin(t, n)
+		kind := rapid.SampledFrom([]string{"Polygon", "MultiLineString", "Collection"}).Draw(t, "lkind")
+		a = AliasSpec{Kind: kind}
+		for i, k := 0, rapid.IntRange(2, 4).Draw(t, "nmem"); i < k; i++ {
+			ww := []int{w[0], w[1]}
+			if rapid.Bool().Draw(t, "shorter") {
+				ww[1] = rapid.IntRange(w[0], w[1]).Draw(t, "shhi")
+			}
+			mem := AliasSpec{Win: ww}
+			if kind == "Collection" {
+				mem.Kind = rapid.SampledFrom(aliasListKinds).Draw(t, "lmk")
+			}
+			a.Members = append(a.Members, mem)
+		}
+	}
+	c.Geoms = []AliasSpec{a}
+	addOperands(t, &c, n)
 	return c
 }
 
@@ -533,4 +913,36 @@ func TestEnumAlias(t *testing.T) {
 		}
 	}
 	stats.Subspace("operands sharing memory: all pairs of the 21 windows of a 5-vertex buffer x 9 list-kind pairs; all pairs of polygons / multi-line-strings of <= 2 rings from the 15 windows of a 4-vertex buffer; all pairs of re-slices g[lo:hi] of 5 three-member containers", size, true)
+}
+
+// TestPropInnerAlias: aliasing INSIDE one value (round L5).
+func TestPropInnerAlias(t *testing.T) {
+	assumptions()
+	stats.Check(t, 16000, 1000000, func(rt *rapid.T) {
+		c := drawInnerCase(rt)
+		gs := c.build()
+		id, ss, ov := innerSharing(gs[0])
+		if id {
+			stats.Class("inner: the same slice twice inside one value")
+		}
+		if ss {
+			stats.Class("inner: slices with the same start and different lengths inside one value")
+		}
+		if ov {
+			stats.Class("inner: overlapping slices with different starts inside one value")
+		}
+		if len(c.MBufs) > 0 {
+			stats.Class("inner: member buffer of kind " + c.MBufs[0].Kind)
+		}
+		classifyAlias(c)
+		if id || ss || ov {
+			stats.NonTrivial(gen.JSON(c))
+			if stats.WantSample("aliasing inside one value") {
+				stats.Sample("aliasing inside one value", c)
+			}
+		} else {
+			stats.Class("inner: no sharing inside a")
+		}
+		stats.Try(rt, "TestPropInnerAlias", c, func() error { return checkAlias(c) })
+	})
 }
